@@ -122,15 +122,18 @@ _vbi_pfc_demux_decode		(vbi_pfc_demux *	dx,
 
 			if ((int) dx->block.application_id < 0) {
 				int sh; /* structure header */
+				int lo;
+				int hi;
 
-				sh = vbi_unham16p (dx->block.block)
-					+ vbi_unham16p (dx->block.block + 2)
-					* 256;
+				lo = vbi_unham16p (dx->block.block);
+				hi = vbi_unham16p (dx->block.block + 2);
 
-				if (sh < 0) {
+				if ((lo | hi) < 0) {
 					/* Hamming error. */
 					goto desynced;
 				}
+
+				sh = lo + hi * 256;
 
 				dx->block.application_id = sh & 0x1F;
 				dx->block.block_size = sh >> 5;
@@ -235,6 +238,8 @@ vbi_pfc_demux_feed		(vbi_pfc_demux *	dx,
 	if (0 == packet) {
 		unsigned int stream;
 		unsigned int ci;
+		int lo;
+		int hi;
 
 		pgno |= vbi_unham16p (buffer + 2);
 		if (pgno < 0)
@@ -245,10 +250,12 @@ vbi_pfc_demux_feed		(vbi_pfc_demux *	dx,
 			return TRUE;
 		}
 
-		subno = vbi_unham16p (buffer + 4)
-			+ vbi_unham16p (buffer + 6) * 256;
-		if (subno < 0)
+		lo = vbi_unham16p (buffer + 4);
+		hi = vbi_unham16p (buffer + 6);
+		if ((lo | hi) < 0)
 			goto desynced;
+
+		subno = lo + hi * 256;
 
 		stream = (subno >> 8) & 15;
 		if (stream != dx->block.stream) {
